@@ -223,6 +223,8 @@ RULES = [
     ("X-NAMES", "column names and function names do not overlap (a bare word is tried as a column first) [shared]", lambda ctx: __import__("extra2").names_disjoint(ctx)),
     ("X-BRACKETS", "wherever the parser tests for a closing bracket of one style it provides for the other style as well [shared]", lambda ctx: __import__("extra2").bracket_styles_agree(ctx)),
     ("C13-R2", "date arguments: the interval table of parse_datetime on the extracted regex, days 30 / 31 included [shared with C13]", lambda ctx: __import__("c13").r2(ctx)),
+    ("C15-R5", "a function value read a second time in the row (another column, a sort key, an aggregate) is the value returned the first time, sign included [shared with C15]", lambda ctx: __import__("c15").r5(ctx)),
+    ("C15-R4", "a leading minus negates the function's value [shared with C15]", lambda ctx: __import__("c15").r4(ctx)),
 ]
 
 EXPLANATION = (
